@@ -1,0 +1,7 @@
+//go:build !verif
+
+package stream
+
+// verifPoint marks a scheduling point for the verification harness.
+// In normal builds it compiles to nothing.
+func verifPoint(string) {}
